@@ -104,7 +104,7 @@ def run(ctx):
         hist, detail = d.split(" ## ", 1)
         ctx.violation(sig, "C02 fails on the implementation: %s  [history: %s]" % (detail, hist),
                       {"history": hist, "detail": detail,
-                       "ops": "M n: NewMessage of n bytes; NS k size: standard signal k (unsigned integer type); NE k e: enum signal; "
+                       "ops": "M n: NewMessage of n bytes; NS k size: standard signal k (integer type, signed iff k+size odd); NE k e: enum signal; "
                               "NX k count gsize: multiplexer; EN e min / EA e idx / ER e j / EM e min / EU e j idx / EC e: enum new / "
                               "AddValue / RemoveValue / SetMinSize / UpdateIndex / RemoveAllValues; AP k / IN k start / RM k: "
                               "AppendSignal / InsertSignal / RemoveSignal; BO b: SetByteOrder (1 = big endian); ST k size: SetType; "
